@@ -243,6 +243,11 @@ def run_item(item):
         lines = make_diff(rng, lang, name)
         if lines is None:
             return inconclusive('empty diff')
+        if rng.random() < 0.35:
+            # lines longer than the highlighting limit are highlighted up to it only; the rest (here often blanks) stays as it is
+            opts['--max-syntax-highlighting-length'] = rng.choice([0, 1, 8, 14, 30, 60])
+            lines = [l + rng.choice(['  ', ' ', '\t', '   \t ', ' x']) if l[:1] in ' +-' and not l.startswith(('--- ', '+++ ')) and rng.random() < 0.4 else l
+                     for l in lines]
         t1, t2 = rng.sample(themes + ['none'], 2)
         o1, o2 = dict(opts), dict(opts)
         o1['--syntax-theme'], o2['--syntax-theme'] = t1, t2
